@@ -110,6 +110,7 @@ Section Steps.
     | MParam i => EParam i
     | MLocal i => ELocal i
     | MVar n => EVar (index_of n names)
+    | MComputed v => ELit v
     end.
   Definition aarg_of (e : mexpr) : aarg :=
     match e with
